@@ -722,7 +722,7 @@ where
                         // Checking only incarnation is sufficient because to refute
                         // suspicion the member must increment its own incarnation
                         .apply_existing_if(as_down.clone(), |member| {
-                            member.incarnation() == incarnation
+                            member.id() == &member_id && member.incarnation() == incarnation
                         })
                     {
                         // The timeout only takes effect if the member was still
